@@ -165,8 +165,8 @@ def ra_fields(IA, PolyAInfo):
         "assignment_type": list(IA.ReadAssignmentType),
         "gene_assignment_type": list(IA.ReadAssignmentType),
         "isoform_matches": [[], [m, m2], [m3], [m2, m2, m]],
-        "additional_info": [{"a": 1}, {"a": -1}, {"k": "v", "p": (1, -2)}],
-        "additional_attributes": [{"CB": "ACGT"}, {"n": 5, "m": -5}, {"": ""}],
+        "additional_info": [{"a": 1}, {"a": -1}, {"k": "v", "p": (1, -2)}, {"d": "007"}],
+        "additional_attributes": [{"CB": "ACGT"}, {"n": 5, "m": -5}, {"": ""}, {"CB": "0042", "NM": "3", "Z": "000"}, {"x": "-7", "y": "1e3", "z": " 5"}],
         "introns_match": [True],
         "exon_gene_profile": [[1], [-2, -1, 0, 1], [0] * 50],
         "intron_gene_profile": [[-1], [1, -1, -2, 0, 1]],
